@@ -127,6 +127,30 @@ def ob_loop_state(info):
     return out
 
 
+def ob_pins(prop):
+    """Name the hand-modelled functions (modelled_functions.json) whose text is no longer the text the model was written from
+    (Lean's PinsNN.modelled_text_unchanged decides)."""
+    def ob(info):
+        import os
+        f = _load("facts.json")
+        vdir = os.path.dirname(os.path.dirname(os.path.abspath(__file__)))
+        try:
+            pins = json.load(open(os.path.join(vdir, "modelled_functions.json"))).get("functions", [])
+        except Exception:
+            return [("modelled_functions.json unreadable", {}, "pins-file")]
+        out = []
+        for e in pins:
+            if prop not in e["props"]:
+                continue
+            now = (f["funcs"].get(e["func"]) or {}).get("text_hash")
+            if now != e["hash"]:
+                out.append(("the text of %s has changed since the hand-written model %s was written from it (%s): the model is no longer known to describe the code" % (
+                    e["func"].replace("github.com/zmap/zlint/v3/", "").replace("github.com/zmap/zlint/v3", "zlint"), e["model"], "function gone" if not now else "hash %s, was %s" % (now, e["hash"])),
+                    {"function": e["func"], "model": e["model"], "pinned": e["hash"], "now": now}, "pin:" + e["func"]))
+        return out
+    return ob
+
+
 def dyn_c06(info):
     """lints whose extracted status set holds a status their prefix forbids and that is not a committed known finding:
     aim a ten-fold mutation sweep at exactly those lints to look for an input that makes them report it"""
@@ -457,3 +481,12 @@ for _pid, _tech, _text in [
         ("C20", " + twin theorems on rule terms translated from the source",
          " twin_agrees with dsa_twins / san_ian_twins: the Mozilla/BR DSA prohibitions and three SAN/IAN pairs are the same term up to renaming, so they agree on every certificate whose mirrored fields carry the same content.")]:
     CLAIMS[_pid] = dict(CLAIMS[_pid], technique=CLAIMS[_pid]["technique"] + _tech, text=CLAIMS[_pid]["text"] + _text + _BODIES)
+
+
+# F14: every property whose theorems are stated over a hand-written model re-checks that the modelled functions still read as they
+# did when the model was written (Lean: ZlProofs.Props.PinsNN; the Python mirror names the function)
+for _pn in (1, 2, 3, 4, 6, 7, 8, 9, 11, 12, 13, 14, 15, 16, 18, 19):
+    _k = "C%02d" % _pn
+    if _k in PROPS:
+        PROPS[_k].setdefault("proofs", []).append("ZlProofs.Props.Pins%02d" % _pn)
+        PROPS[_k].setdefault("obligations", []).append(ob_pins(_k))
